@@ -82,6 +82,23 @@ impl Report {
 
     /// writes evidence + replay files, prints the verdict lines, returns the process exit code
     pub fn finish(mut self) -> i32 {
+        // replay mode for enumeration-style checks: re-run and look for one signature only
+        if let Ok(sig) = std::env::var("VERIF_REPLAY_SIG") {
+            let path = std::env::var("VERIF_REPLAY_PATH").unwrap_or_default();
+            return match self.violations.iter().find(|v| v.sig == sig) {
+                Some(v) => {
+                    println!("replay: signature {sig} reproduced");
+                    println!("  config: {}  occurrences: {}", v.cfg, v.count);
+                    println!("  message: {}", v.msg);
+                    println!("VIOLATION property={} replay={}", self.prop, path);
+                    1
+                }
+                None => {
+                    println!("replay: signature {sig} not reproduced on this tree");
+                    0
+                }
+            };
+        }
         let known = load_known();
         let mut exit = 0;
         let mut printed_known = BTreeSet::new();
